@@ -449,25 +449,20 @@ func c05Take(c *core.Ctx, s *Stage) {
 func iterTake(c *core.Ctx, s *Stage, g *Goroutine, h *ssa.BasicBlock) {
 	elem, ok := commonIterationX(c, s, g, h, 0, 0, true)
 	out := outChan(s, 0)
-	// the budget cell: the captured int parameter
-	var budget *ir.Term
-	for _, p := range s.Outer.AllPaths() {
-		for _, st := range p.Events(ir.KStore) {
-			if st.A[1].Op == "param" && st.A[0].Op == "alloc" {
-				if b, isB := st.A[1].Typ.Underlying().(interface{ Kind() int }); isB {
-					_ = b
-				}
-				if st.A[1].Typ != nil && st.A[1].Typ.String() == "int" {
-					budget = st.A[0]
-				}
-			}
-		}
-	}
-	if budget == nil {
-		c.Undecided("iteration", s.Name, s.Fn.Pos(), "budget cell (captured int parameter) not found")
+	// the budget: the loop-carried integer (register or cell) that enters the loop with the value of the
+	// stage's int parameter
+	ints := paramNamedType(s.Fn, "int")
+	if len(ints) != 1 {
+		c.Undecided("iteration", s.Name, s.Fn.Pos(), "the stage has %d int parameters, expected the element budget alone", len(ints))
 		return
 	}
-	q := CellQuantity(g.An, budget)
+	nT := &ir.Term{Op: "param", Aux: ints[0].Name()}
+	q, qname, found := loopQuantity(g.An, h, nT)
+	if !found {
+		c.Undecided("iteration", s.Name, s.Fn.Pos(), "no single loop-carried budget initialised from parameter %s found (%s)", ints[0].Name(), qname)
+		return
+	}
+	_ = qname
 	for _, f := range elem {
 		per, foreign := sendsOnOutputs(s, f.p)
 		sends := per[out.Key()]
@@ -483,7 +478,10 @@ func iterTake(c *core.Ctx, s *Stage, g *Goroutine, h *ssa.BasicBlock) {
 			c.Fail("iteration", s.Name, f.recv.Pos(), "each received element must be sent exactly once, unchanged; found %d sends%s:\n%s", len(sends), valNote(sends), f.p)
 			continue
 		}
-		// exactly one decrement by one on the path
+		// exactly one decrement by one on every path that goes on to the next element
+		if f.p.To != h {
+			continue
+		}
 		k, isK := plusConst(q.ValueAt(f.p, len(f.p.Steps)), q.StartSym(f.p))
 		if !isK || k != -1 {
 			ok = false
@@ -525,19 +523,30 @@ func iterTake(c *core.Ctx, s *Stage, g *Goroutine, h *ssa.BasicBlock) {
 			}
 		}
 		if p.Exit == ir.ExitReturn && !f.closed && !f.done {
-			// exit because the budget is exhausted: the interval of the budget at the return must be exactly [0,0]
+			// exit because the budget is exhausted: what the path established about the budget at its start,
+			// minus the element it emitted, must be <= 0
+			iv := Itv{0, PosInf}
+			if p.From != nil {
+				iv = res.AtHeader[p.From]
+			}
+			sym := q.StartSym(p)
+			match := func(t *ir.Term) (int64, bool) { return plusConst(t, sym) }
 			for i := range p.Steps {
-				st := &p.Steps[i]
-				if st.Kind != ir.KReturn {
-					continue
+				if p.Steps[i].Kind == ir.KBranch {
+					iv = refineItv(iv, p.Steps[i].Atom, p.Steps[i].Pol, match)
 				}
-				// per-path value: recompute on this path alone
-				iv := pathInterval(g.An, res, q, p, i)
-				if !(iv.Lo == 0 && iv.Hi == 0) && !iv.Empty() {
-					okB = false
-					c.Fail("take-budget", s.Name, st.Pos(), "the stage stops with budget in %s although the input is open and the context live: fewer than n elements are delivered", iv)
-					return
+			}
+			emitted := int64(0)
+			for _, e := range allSends(p) {
+				if ir.Same(e.ch, out) {
+					emitted++
 				}
+			}
+			left := iv.Add(-emitted)
+			if !iv.Empty() && left.Hi > 0 {
+				okB = false
+				c.Fail("take-budget", s.Name, lastPos(p), "the stage stops with budget in %s left although the input is open and the context live: fewer than n elements are delivered", left)
+				return
 			}
 		}
 	}
@@ -823,18 +832,10 @@ func c05Seq(c *core.Ctx, s *Stage) {
 		return
 	}
 	out := outChan(s, 0)
-	sym := an.Start[h].Reg(l.Phi)
 	for _, p := range an.Segs[h] {
 		sends := allSends(p)
 		if p.To == h {
-			idx := &ir.Term{Op: "bin", Aux: "+", Args: sorted2(sym, ir.Const("1"))}
-			want1 := &ir.Term{Op: "index", Args: []*ir.Term{l.RangeOver, idx}}
-			good := len(sends) == 1 && ir.Same(sends[0].ch, out)
-			if good {
-				v := sends[0].val
-				// value is xs[i] loaded through the element address
-				good = ir.Same(v, want1) || (v.Op == "load" && v.Args[0].Op == "iaddr" && ir.Same(v.Args[0].Args[0], l.RangeOver) && ir.Same(v.Args[0].Args[1], idx))
-			}
+			good := len(sends) == 1 && ir.Same(sends[0].ch, out) && l.IsElem(an, sends[0].val)
 			if !good {
 				ok = false
 				c.Fail("iteration", s.Name, lastPos(p), "each iteration must send xs[i] exactly once on the output:\n%s", p)
@@ -901,6 +902,9 @@ func c05ToSeq(c *core.Ctx, s *Stage) {
 		}
 		if v != nil && v.Op == "slice" && v.Args[0].Op == "alloc" {
 			if k, isK := v.Args[2].IntConst(); isK && k == 0 {
+				empty = true
+			}
+			if n, _, isArr := freshArrayLen(v); isArr && n == 0 {
 				empty = true
 			}
 		}
